@@ -14,7 +14,7 @@ weak order (`WeakOrd`: the harness' external priority tables are of this kind), 
 -/
 import TlxVerif.Proofs.C13DAry
 import TlxVerif.Proofs.C13Addr
-import TlxVerif.Model.C13Radix
+import TlxVerif.Proofs.C13Radix
 namespace TlxVerif.C13
 
 /-- heap order of `heap_` (interface level) -/
@@ -515,5 +515,101 @@ theorem addr_history (d : Nat) (hd : 0 < d) (ops : List AOp) (s : AState) (ref :
 theorem ainv_init (d : Nat) (lt : Nat → Nat → Bool) (wo : WeakOrd lt) : AInvS d ⟨lt, {}⟩ [] :=
   ⟨wo, ⟨fun i hi => absurd hi (by simp), fun i hi => absurd hi (by simp),
     fun key pos hk => by simp at hk⟩, fun i hi => absurd hi (by simp), by simp⟩
+
+
+/-! ## Part 3: `RadixHeap` — IntegerRank and BucketComputation
+
+Proved for every key width, signedness and radix `2^rb` (`rb ≥ 1`):
+the rank is order preserving and invertible; the bucket function (as written in the C++ code, after
+the fix of the 8/16-bit promotion defect) puts exactly the keys equal to the insertion limit into
+bucket 0, is monotone in the key, gives every bucket of the first row a single key, keeps the bucket
+of every key of a later bucket when the limit is raised to a key of an earlier bucket, and sends
+every key of the reorganised bucket to a strictly earlier bucket. These are the facts the
+`reorganize_()` argument rests on. -/
+
+/-- **IntegerRank is order preserving** -/
+theorem radix_rank_order (c : RCfg) (hw : 0 < c.w) (a b : BitVec c.w) :
+    (rankOfInt c a).toNat < (rankOfInt c b).toNat ↔ keyVal c a < keyVal c b := rank_lt_iff c hw a b
+
+/-- **`int_at_rank` inverts `rank_of_int`** -/
+theorem radix_rank_inverse (c : RCfg) (k : BitVec c.w) :
+    intAtRank c (rankOfInt c k) = k ∧ rankOfInt c (intAtRank c k) = k :=
+  ⟨intAtRank_rankOfInt c k, rankOfInt_intAtRank c k⟩
+
+/-- **bucket 0 ⇔ key = insertion limit** -/
+theorem radix_bucket_zero (c : RCfg) (hrb : 0 < c.rb) (x lim : BitVec c.w) (h : lim.toNat ≤ x.toNat) :
+    bucketOf c x lim = 0 ↔ x = lim := bucketOf_eq_zero_iff c hrb x lim h
+
+/-- **the bucket index is monotone in the key** -/
+theorem radix_bucket_mono (c : RCfg) (hrb : 0 < c.rb) (lim x y : BitVec c.w)
+    (h1 : lim.toNat ≤ x.toNat) (h2 : x.toNat ≤ y.toNat) : bucketOf c x lim ≤ bucketOf c y lim := by
+  rw [bucketOf_eq, bucketOf_eq]; exact bucketNat_mono c.rb _ _ _ hrb h1 h2
+
+/-- **a bucket of the first row (index < Radix) holds a single key** -/
+theorem radix_bucket_row0 (c : RCfg) (hrb : 0 < c.rb) (lim x y : BitVec c.w)
+    (h1 : lim.toNat ≤ x.toNat) (h2 : lim.toNat ≤ y.toNat)
+    (hb : bucketOf c x lim = bucketOf c y lim) (h0 : bucketOf c x lim < c.radix) : x = y := by
+  rw [bucketOf_eq, bucketOf_eq] at hb
+  rw [bucketOf_eq] at h0
+  exact BitVec.eq_of_toNat_eq (bucketNat_row0_inj c.rb _ _ _ hrb h1 h2 hb h0)
+
+/-- **raising the limit to a key of an earlier bucket leaves later buckets alone** -/
+theorem radix_bucket_stable (c : RCfg) (hrb : 0 < c.rb) (lim m x : BitVec c.w)
+    (h1 : lim.toNat ≤ m.toNat) (h2 : m.toNat ≤ x.toNat) (hb : bucketOf c m lim < bucketOf c x lim) :
+    bucketOf c x m = bucketOf c x lim := by
+  rw [bucketOf_eq, bucketOf_eq] at hb
+  rw [bucketOf_eq, bucketOf_eq]
+  exact bucketNat_stable c.rb _ _ _ hrb h1 h2 hb
+
+/-- **`reorganize_()` moves every key of the consumed bucket strictly forward** -/
+theorem radix_bucket_redistribute (c : RCfg) (hrb : 0 < c.rb) (lim m x : BitVec c.w)
+    (h1 : lim.toNat ≤ m.toNat) (h2 : m.toNat ≤ x.toNat)
+    (hb : bucketOf c x lim = bucketOf c m lim) (hrow : c.radix ≤ bucketOf c m lim) :
+    bucketOf c x m < bucketOf c m lim := by
+  rw [bucketOf_eq, bucketOf_eq] at hb
+  rw [bucketOf_eq] at hrow
+  rw [bucketOf_eq, bucketOf_eq]
+  exact bucketNat_redistribute c.rb _ _ _ hrb h1 h2 hb hrow
+
+-- non-vacuity: Radix 8, 16-bit signed keys: -32768 has rank 0, 32767 the maximal rank;
+-- with limit rank 0x8000 (key 0) the key 9 (rank 0x8009) is in row 1, bucket 8 + 1 - 1
+example : rankOfInt ⟨16, true, 3⟩ (BitVec.ofInt 16 (-32768)) = 0#16 ∧
+    rankOfInt ⟨16, true, 3⟩ (BitVec.ofInt 16 32767) = 0xFFFF#16 ∧
+    bucketOf ⟨16, true, 3⟩ 0x8009#16 0x8000#16 = 8 := by decide
+
+/-! #### the radix heap as a state machine (statement only) -/
+
+inductive ROp (c : RCfg) where
+  | push (k : BitVec c.w) (payload : Nat) | top | pop | swap | peak | clear
+
+/-- `v` is stored and no stored element has a smaller rank -/
+def IsMin (c : RCfg) (ref : List (RVal c.w)) (v : RVal c.w) : Prop :=
+  v ∈ ref ∧ ∀ u ∈ ref, (rankOfInt c v.1).toNat ≤ (rankOfInt c u.1).toNat
+
+/-- "the history `ops` runs correctly from heap `h` holding the multiset `ref`, the key most recently
+reported by top/pop/swap_top_bucket being `frontier`" — pushes below the frontier and extractions
+from an empty heap are outside the documented discipline and impose nothing -/
+def RadixRuns (c : RCfg) : RH c → Option (BitVec c.w) → List (RVal c.w) → List (ROp c) → Prop
+  | h, _, ref, [] => h.size = ref.length
+  | h, fr, ref, .push k p :: ops =>
+    (∀ f, fr = some f → f.toNat ≤ (rankOfInt c k).toNat) →
+      ∃ h' idx, h.push (k, p) = some (h', idx) ∧ RadixRuns c h' fr ((k, p) :: ref) ops
+  | h, _, ref, .top :: ops =>
+    ref ≠ [] → ∃ h' v, h.top = some (h', v) ∧ IsMin c ref v ∧ RadixRuns c h' (some (rankOfInt c v.1)) ref ops
+  | h, _, ref, .pop :: ops =>
+    ref ≠ [] → ∃ h' v, h.pop = some (h', v) ∧ IsMin c ref v ∧
+      RadixRuns c h' (some (rankOfInt c v.1)) (ref.erase v) ops
+  | h, _, ref, .swap :: ops =>
+    ref ≠ [] → ∃ h' b v, h.swapTopBucket = some (h', b) ∧ v ∈ b ∧ (∀ u ∈ b, IsMin c ref u) ∧
+      RadixRuns c h' (some (rankOfInt c v.1)) (ref.diff b.toList) ops
+  | h, fr, ref, .peak :: ops =>
+    ref ≠ [] → ∃ k v, h.peakTopKey = some k ∧ IsMin c ref v ∧ v.1 = k ∧ RadixRuns c h fr ref ops
+  | h, _, _, .clear :: ops => RadixRuns c h.clear none [] ops
+
+/-- the statement that is NOT proved: every monotone history runs correctly -/
+def radix_heap_statement : Prop :=
+  ∀ (c : RCfg), 0 < c.rb → c.rb ≤ 6 → 0 < c.w → c.w ≤ 64 →
+    ∀ ops : List (ROp c), RadixRuns c (RH.init c) none [] ops
+-- OPEN: radix_heap_statement — the invariant of RH (every element sits in bucketOf(rank, limit), mins_/filled_ describe the buckets, nothing is stored before current_bucket_) and its preservation by reorganize_() are not formalised; the bucket-function lemmas it needs (radix_bucket_zero/mono/row0/stable/redistribute) and the rank theorems are proved above; the two-level BitArray (find_lsb = least set index) and the state machine itself are covered by the correspondence only
 
 end TlxVerif.C13
